@@ -80,7 +80,12 @@ func (e *Emitter) Script(o *Obligation) string {
 	sd := e.ss.Decls()
 	b.WriteString(e.ss.StrDecls())
 	b.WriteString(sd)
-	// spec functions actually referenced (defines may reference earlier ones)
+	// spec functions actually referenced (defines may reference earlier ones); axioms are always emitted
+	for _, a := range e.reg.axioms {
+		for s := range symbolsOf(a) {
+			used[s] = true
+		}
+	}
 	need := map[string]bool{}
 	for i := len(e.reg.order) - 1; i >= 0; i-- {
 		f := e.reg.order[i]
